@@ -320,6 +320,28 @@ def run(check):
 
     check.guarded(R4, stack)
 
+    def _regex_used_statelessly(jf, name):
+        """every reference to the module-level regex is the argument of String.prototype.match /
+        matchAll / replace / replaceAll / split / search (which reset lastIndex before they start)"""
+        refs = 0
+        for x in jsast.walk(jf.program):
+            if x.get("type") == "CallExpression":
+                cal = x.get("callee") or {}
+                args = x.get("arguments") or []
+                for a in args:
+                    a = a.get("expression", a) if isinstance(a, dict) else a
+                    if jsast.ident_name(a) == name:
+                        prop = cal.get("property") or {}
+                        pn = prop.get("value") if prop.get("type") == "Identifier" else None
+                        if cal.get("type") == "MemberExpression" and pn in ("match", "matchAll", "replace", "replaceAll", "split", "search"):
+                            refs += 1
+                        else:
+                            return False
+            elif x.get("type") == "MemberExpression" and jsast.ident_name(x.get("object") or {}) == name:
+                return False  # REGEX.exec / .test / .lastIndex
+        total = sum(1 for x in jsast.walk(jf.program) if x.get("type") == "Identifier" and x.get("value") == name)
+        return refs > 0 and total == refs + 1  # the declaration itself plus the stateless uses
+
     R5 = "JS-STATE"
     check.rule(R5, "module-level mutable state of the JS glue is exactly the reviewed set (the two source-map caches and the lazily loaded native class); in particular no regular expression with the g/y flag lives outside the function that uses it (its lastIndex would carry over from one call site to the next)")
     REVIEWED_STATE = {
@@ -342,7 +364,7 @@ def run(check):
                     if init is None:
                         kind = "uninitialised binding"
                     elif init.get("type") == "RegExpLiteral":
-                        if any(f in (init.get("flags") or "") for f in "gy"):
+                        if any(f in (init.get("flags") or "") for f in "gy") and not _regex_used_statelessly(jf, name):
                             c.bad(R5, "%s/stateful-regex/%s" % (R5, name), jf.loc(d), "module-level regular expression /%s/%s keeps lastIndex between calls: every other match starts in the middle of the string" % (init.get("pattern", "")[:30], init.get("flags")))
                             continue
                     elif init.get("type") in ("NewExpression", "ObjectExpression", "ArrayExpression"):
